@@ -52,6 +52,8 @@ type Stats struct {
 	Notes       []string          `json:"notes"`
 	Exhaustive  map[string]bool   `json:"exhaustive"`
 	RapidPassed map[string]int    `json:"rapid_passed"`
+	// Distinct holds, per named set, the hashes of the distinct members seen (merged by the driver).
+	Distinct map[string][]string `json:"distinct_sets"`
 }
 
 var (
@@ -60,6 +62,7 @@ var (
 	nontrivial = map[uint64]struct{}{}
 	inited     bool
 	findings   []Finding
+	distinct   = map[string]map[uint64]struct{}{}
 )
 
 const maxSamples = 12
@@ -219,6 +222,23 @@ func Excluded(name string) {
 	mu.Unlock()
 }
 
+// Distinct records key as a member of the named set; the evidence reports the
+// number of distinct members per set (e.g. operator pairs, (kind, slot) sites).
+func Distinct(set, key string) {
+	h := Hash64([]byte(key))
+	mu.Lock()
+	initOnce()
+	m := distinct[set]
+	if m == nil {
+		m = map[uint64]struct{}{}
+		distinct[set] = m
+	}
+	if len(m) < 200000 {
+		m[h] = struct{}{}
+	}
+	mu.Unlock()
+}
+
 // Note adds a free-text note to the evidence.
 func Note(format string, args ...interface{}) {
 	mu.Lock()
@@ -303,6 +323,12 @@ func Flush() {
 		st.NonTrivial = append(st.NonTrivial, strconv.FormatUint(h, 16))
 	}
 	sort.Strings(st.NonTrivial)
+	st.Distinct = map[string][]string{}
+	for name, m := range distinct {
+		for h := range m {
+			st.Distinct[name] = append(st.Distinct[name], strconv.FormatUint(h, 16))
+		}
+	}
 	if path == "" {
 		fmt.Fprintf(os.Stderr, "[harness] property=%s evaluations=%d distinct_nontrivial=%d violations=%d classes=%v excluded=%v known=%v\n",
 			st.Property, st.Evaluations, len(nontrivial), len(st.Violations), st.Classes, st.Excluded, st.Known)
